@@ -17,6 +17,22 @@ E = CB + "::encrypted_transfers::"
 G = E + "proofs::generate_proofs::"
 
 
+def enctrans_sibling_rule(ck):
+    # the accounting relation combines the chunk randomness / responses of BOTH amounts with powers of two: prover (commit
+    # message) and verifier (extracted commit message) of EncTrans form the same number of linear combinations, and the verifier
+    # walks no more sequences in lockstep than it does today (merging the two response vectors chunk-wise with zip drops the
+    # surplus chunks of the longer one from the balance equation)
+    cbx = crate("rs", CB)
+    pe = [Fn(b) for p0 in cbx.paths() if re.search(r"enc_trans::EncTrans<C> as .*SigmaProtocol>::compute_commit_message$", p0) for b in cbx.get_all(p0)]
+    ve = [Fn(b) for p0 in cbx.paths() if re.search(r"enc_trans::EncTrans<C> as .*SigmaProtocol>::extract_commit_message$", p0) for b in cbx.get_all(p0)]
+    if ck.anchor(len(pe) == 1 and len(ve) == 1, "SIB", "EncTrans", "prover and verifier commit functions"):
+        LC = r"linear_combination_with_powers_of_two$"
+        npc, nvc = len(pe[0].calls(LC)), len(ve[0].calls(LC))
+        ck.ob("SIB", ve[0].path, "linear-combinations-agree", npc == nvc and nvc >= 2,
+              "prover and verifier both form %d power-of-two combinations (one per amount)" % nvc if npc == nvc and nvc >= 2 else
+              "the prover forms %d power-of-two combinations, the verifier %d: the verifier does not weigh the responses of each amount on their own" % (npc, nvc), ve[0].loc())
+
+
 def run(ck):
     ck.explanation = ("Decides enforcement and orientation of the balance check, enforcement of every proof verification, "
                       "the def-use binding of commitment keys to parties, the range-proof bit widths, and prover/verifier "
@@ -145,6 +161,7 @@ def run(ck):
     #     comparing exactly those two lengths: a truncated zip drops a chunk from the linear balance relation
     nz = extract_zip_sweep(ck, crate("rs", CB), re.compile(r"sigma_protocols::(enc_trans|com_enc_eq|elgamal_dec|com_eq|dlog)::.*SigmaProtocol>::extract_commit_message$"))
     ck.floor("CMP", "chunk statement/response zips in the accounting proof", nz, 2)
+    enctrans_sibling_rule(ck)
 
     # c''. decrypted chunks are LIMBS that may exceed their nominal width after homomorphic aggregation (the sum of two 32-bit
     #      chunks can be 2^32): they are recombined by addition, never by bit-wise or
